@@ -28,7 +28,7 @@ type batchResult struct {
 	fps        map[uint64]struct{} // distinct fingerprints of non-trivial runs
 	auxs       map[uint64]struct{} // distinct secondary hashes (interleavings)
 	fpCapped   bool
-	sites      map[int]struct{}    // instrumented statements executed
+	sites      map[int]struct{} // instrumented statements executed
 	runs       uint64
 	nontrivial uint64
 	violations []RunResult
@@ -108,6 +108,7 @@ func runWorkers(exe string, sc *scenario, tier string, seed, total uint64, nwork
 				}
 				open := int64(-1)
 				finished := false
+				restart := int64(-1)
 				nviol := 0
 				rd := bufio.NewReaderSize(stdout, 1<<20)
 				// wall-clock watchdog: a worker that prints nothing for 3 minutes is stuck in something
@@ -200,6 +201,8 @@ func runWorkers(exe string, sc *scenario, tier string, seed, total uint64, nwork
 							}
 						case "F":
 							finished = true
+						case "N":
+							restart, _ = strconv.ParseInt(sp[1], 10, 64)
 						case "D":
 							br.mu.Lock()
 							br.capped = true
@@ -226,6 +229,13 @@ func runWorkers(exe string, sc *scenario, tier string, seed, total uint64, nwork
 				}
 				if finished {
 					return
+				}
+				if restart >= 0 && werr == nil {
+					from = uint64(restart)
+					br.mu.Lock()
+					br.stats.add("worker_process_starts", 1)
+					br.mu.Unlock()
+					continue
 				}
 				code := -1
 				if ee, ok := werr.(*exec.ExitError); ok {
@@ -454,20 +464,33 @@ func cmdRun(args []string) int {
 		}
 		cands = append(cands, cand{a.Index, *prop + "/" + f})
 	}
+	norepro := 0
 	for _, cd := range cands {
 		if reported[cd.class] || len(reported) >= 3 {
 			continue
 		}
-		reported[cd.class] = true
 		path, code := handleViolation(exe, sc, *tier, seed, cd.index, cd.class, *replays, *known)
 		if code == exitInfra {
 			return exitInfra
 		}
+		if code == exitNoRepro {
+			// try the next run that violated the same clause (at most a few)
+			norepro++
+			if norepro >= 6 {
+				break
+			}
+			continue
+		}
+		reported[cd.class] = true
 		if code == exitViolation {
 			nviol++
 			exit = exitViolation
 			fmt.Printf("VIOLATION property=%s replay=%s\n", *prop, path)
 		}
+	}
+	if norepro > 0 && nviol == 0 {
+		fmt.Fprintf(os.Stderr, "INFRASTRUCTURE ERROR: %d violating runs did not reproduce in %d fresh executions each — nondeterminism that neither the simulator nor repetition controls\n", norepro, noReproTries)
+		return exitInfra
 	}
 	// ---- evidence
 	wallS := time.Since(start).Seconds()
@@ -517,30 +540,30 @@ func writeEvidence(path string, sc *scenario, tier string, seed uint64, br *batc
 		samples = append(samples, "no sample trace was emitted (batch too small)")
 	}
 	cov := map[string]any{
-		"evaluations":         br.runs,
-		"distinct_nontrivial": len(br.fps),
-		"rule":                sc.Rule,
-		"samples":             samples,
-		"exhaustive":          false,
-		"runs_planned":        planned,
-		"wall_clock_capped":   br.capped,
-		"nontrivial_runs":     br.nontrivial,
-		"runs_per_hour":       int64(float64(br.runs) / wallS * 3600),
-		"seeds_per_hour":      int64(float64(br.runs) / wallS * 3600),
-		"simulated_time_ticks": br.stats.Counters["ticks"],
-		"simulated_time_note": "the library has no clock; simulated time is the logical step clock: one tick per instrumented library statement executed",
-		"faults_fired":        faults,
-		"oracle_evaluations":  oracles,
-		"probes":              probes,
-		"distinct_counting_capped": br.fpCapped,
-		"distinct_interleavings":   len(br.auxs),
-		"library_statements_total":   max(len(sitesTable)-1, 0),
-		"library_statements_reached": len(br.sites),
+		"evaluations":                        br.runs,
+		"distinct_nontrivial":                len(br.fps),
+		"rule":                               sc.Rule,
+		"samples":                            samples,
+		"exhaustive":                         false,
+		"runs_planned":                       planned,
+		"wall_clock_capped":                  br.capped,
+		"nontrivial_runs":                    br.nontrivial,
+		"runs_per_hour":                      int64(float64(br.runs) / wallS * 3600),
+		"seeds_per_hour":                     int64(float64(br.runs) / wallS * 3600),
+		"simulated_time_ticks":               br.stats.Counters["ticks"],
+		"simulated_time_note":                "the library has no clock; simulated time is the logical step clock: one tick per instrumented library statement executed",
+		"faults_fired":                       faults,
+		"oracle_evaluations":                 oracles,
+		"probes":                             probes,
+		"distinct_counting_capped":           br.fpCapped,
+		"distinct_interleavings":             len(br.auxs),
+		"library_statements_total":           max(len(sitesTable)-1, 0),
+		"library_statements_reached":         len(br.sites),
 		"library_statements_reached_by_file": sitesByFile(br.sites),
-		"types_reached":       len(typesReached),
-		"types_reached_detail": typesReached,
-		"other_counters":      other,
-		"workers":             workers,
+		"types_reached":                      len(typesReached),
+		"types_reached_detail":               typesReached,
+		"other_counters":                     other,
+		"workers":                            workers,
 		"components": map[string]any{
 			"real":    []string{"codec/ (all of it)", "sse-bin/messages", "szse-bin/messages", "bjse-trade-bin/messages", "risk-bin/messages", "sample-bin/messages (all from /repo's working tree, instrumented copy)", "bytes.Buffer, encoding/binary, hash/crc32 as the library uses them"},
 			"stubbed": []string{"sender/receiver application loops", "wire (segmenting, cutting, corrupting byte stream)", "buffer pool", "exchange frame verifier with independent checksum implementations", "scheduler and step clock (simrt)", "sync.Mutex/RWMutex/Once/Pool/WaitGroup replaced by scheduler-aware equivalents that take the real primitive inside"},
